@@ -114,9 +114,14 @@ def _run_case(arg):
         out["seconds"] = round(time.time() - t0, 3)
         return out
     except Exception as e:  # noqa: BLE001
-        return {"harness": "?", "case": str(idx), "group": "?", "crash": f"{type(e).__name__}: {e}\n{traceback.format_exc()}", "obligations": [],
-                "unsupported": None, "paths": 0, "seconds": 0, "inlined": [], "used_contracts": [], "used_overrides": [], "assumed": [],
-                "expect": None, "target": [], "cover": None, "overrides": {}}
+        try:
+            hname, label, tgt = cases[idx].harness, cases[idx].label, cases[idx].target
+        except Exception:  # noqa: BLE001
+            hname, label, tgt = "?", str(idx), []
+        # an internal error of the interpreter on this input is 'unsupported' (undecided), never a verdict about the code
+        return {"harness": hname, "case": label, "group": "?", "obligations": [],
+                "unsupported": f"engine-internal: {type(e).__name__}: {e} @ {traceback.format_exc().strip().splitlines()[-3].strip()[:120]}", "paths": 0, "seconds": 0, "inlined": [], "used_contracts": [], "used_overrides": [], "assumed": [],
+                "expect": None, "target": tgt, "cover": None, "overrides": {}}
 
 
 def run_cases(modname, ncases, mutant_key=None, timeout_ms=10000, want_replay=True, nproc=NPROC, only=None):
